@@ -241,14 +241,18 @@ def oracle_factory(ctx):
             return None
         if kind == "union":
             names = ["u%d" % i for i in range(len(subs))]
-            pf = extra
-            con = C.Union(pf, *[n / c for n, c in zip(names, subs)])
+            pf, anon = (extra if isinstance(extra, list) else (extra, []))
+            # anonymous members are parsed from the same start as everybody else; they just leave no entry behind
+            names = [None if i in anon else n for i, n in enumerate(names)]
+            con = C.Union(pf, *[(n / c) if n else c for n, c in zip(names, subs)])
             o = call(con.parse_stream, s)
             refs = [iso(sp, data, start) for sp in specs]
             if all(r.ok for r, _ in refs):
                 if not o.ok:
                     return Failure("C09/union/rejects", "every member parses in isolation but Union -> %r | %s" % (o, where))
                 for n, (r, _) in zip(names, refs):
+                    if n is None:
+                        continue
                     if not lib_eq(o.value[n], r.value):
                         return Failure("C09/union/member-value", "Union member %s -> %s, isolated -> %s | %s" % (n, short(o.value[n]), short(r.value), where))
                 if pf is None:
@@ -262,6 +266,8 @@ def oracle_factory(ctx):
                 # build: only the first member present in the dict is written
                 # (documented: the first member that can be built from nothing, or whose key is present, is the one built)
                 for n, c, (r, _) in zip(names, subs, refs):
+                    if n is None or anon:
+                        continue        # (build with anonymous members: which member is written is not specified)
                     first = None
                     for n2, c2, sp2, (r2, _) in zip(names, subs, specs, refs):
                         if G.buildnone(sp2) or n2 == n:
@@ -292,6 +298,11 @@ def cases(draw):
         extra = draw(st.one_of(st.integers(0, max(0, len(data))), st.integers(-max(1, len(data)), -1)))
     if kind == "union":
         extra = draw(st.sampled_from([None, 0, len(specs) - 1, "u0", "u%d" % (len(specs) - 1)]))
+        if draw(st.integers(0, 2)) == 0:
+            anon = draw(st.lists(st.integers(0, len(specs) - 1), min_size=1, max_size=len(specs), unique=True))
+            if isinstance(extra, str) and int(extra[1:]) in anon:
+                extra = int(extra[1:])      # (an anonymous member can only be selected by position)
+            extra = [extra, sorted(anon)]
     return [kind, specs, extra, data, start]
 
 
